@@ -30,13 +30,15 @@ Proof. intros c s snap hl hp s' H p Hp. exact (proj1 (tick_end_progress c s snap
 (* A task is queued only when it is really ready. *)
 Theorem c03_queued_only_when_ready : forall c s t st h r s' p inp i,
   step c s (EState t st h true r) = Ok s' -> lookup s t = Some (p, inp) -> p_queued p = false ->
+  p_manual p = false ->
   find_inst (c_insts c) t = Some i ->
   ready i (set_flags p h false r) = true.
 Proof.
-  intros c s t st h r s' p inp i H El Hq Hi. cbn [step] in H. rewrite El, Hi in H.
+  intros c s t st h r s' p inp i H El Hq Hm Hi. cbn [step] in H. rewrite El, Hi in H.
   destruct (_ && _) in H; [discriminate|].
-  destruct (true && negb (p_queued p) && negb (ready i (set_flags p h false r))) eqn:E; [discriminate|].
-  rewrite Hq in E. cbn in E. now apply negb_false_iff in E.
+  destruct (true && negb (p_queued p) && negb (ready i (set_flags p h false r)) && negb (p_manual p)) eqn:E;
+    [discriminate|].
+  rewrite Hq, Hm in E. cbn in E. rewrite andb_true_r in E. now apply negb_false_iff in E.
 Qed.
 
 (* The stall verdict itself (is_stalled) is checked on the implementation by
